@@ -130,6 +130,10 @@ let run_g toks =
   | ["adv"; _; c; i; d] ->
     (match Gen_ArrayIndexIterator.op_add_assign (fun _ -> u64 c) (zi 1) (u64 i) (z d) with
      | GenPrelude.Ok (_, i') -> print_endline ("A=" ^ string_of_z i') | o -> print_endline (oc o))
+  | ["rawadv"; c; i; d] ->
+    (match Gen_DataRawIterator.raw_add_assign (u64 i) (fun _ -> u64 c) (z d) (zi 1) with
+     | GenPrelude.Ok i' -> print_endline ("A=" ^ string_of_z i') | o -> print_endline (oc o))
+  | ["rawarrow"; c; i] -> print_endline (oc (Gen_DataRawIterator.raw_arrow (u64 i) (fun _ -> u64 c) (zi 1)))
   | ["defadv"; _; _; d] -> print_endline (oc (Gen_ArrayIndexIterator.op_add_assign (fun _ -> zi 0) (zi 0) (zi 0) (z d)))
   | ["arrow"; _; c; i] -> print_endline (oc (Gen_ArrayIndexIterator.op_arrow (fun _ -> u64 c) (zi 1) (u64 i)))
   | ["defarrow"; _; _] -> print_endline (oc (Gen_ArrayIndexIterator.op_arrow (fun _ -> zi 0) (zi 0) (zi 0)))
